@@ -68,6 +68,18 @@ func init() {
 				cov["single_height_batches_pass"] = map[string]interface{}{"heights_per_batch": 1, "states": sb.States, "transitions": sb.Transitions, "depth_completed": sb.DepthDone, "exhaustive": sb.Exhaustive,
 					"per_event_transitions": sb.PerEvent, "distinct_outcomes": len(sb.Outcomes), "opts": bo}
 				long.Violations = append(long.Violations, sb.Violations...)
+				// the same, started in the middle of an import: four one-height batches have run, the
+				// restored wallet's first credit is recorded, the wallet is still importing - blocks
+				// that spend or add to what the rescan has already recorded, reorganisations, restart
+				mo := map[string]interface{}{"import": true, "batch": 1, "templates": []string{"e"}, "patterns": []string{"E", "R"}, "max_reorg": 2, "max_queue": 2, "max_height": 6, "no_b": true,
+					"gap": 3, "c_blocks": []string{"pc0", "sc", "c2a"}, "setup": []string{"x.pc0", "d", "x.e", "d", "i.m0", "i.s", "i.s", "i.s", "i.s"}}
+				mb, err := runBFS(c.Bin, c.Scratch, bfsCfg{Model: "c01", Opts: mo, Depth: map[bool]int{false: 4, true: 7}[c.Tier == "thorough"], Workers: c.Workers, Deadline: dl, Recycle: 150, OpenTags: openTags(c)})
+				if err != nil {
+					return nil, nil, nil, err
+				}
+				cov["mid_import_pass"] = map[string]interface{}{"heights_per_batch": 1, "states": mb.States, "transitions": mb.Transitions, "depth_completed": mb.DepthDone, "exhaustive": mb.Exhaustive,
+					"per_event_transitions": mb.PerEvent, "distinct_outcomes": len(mb.Outcomes), "opts": mo}
+				long.Violations = append(long.Violations, mb.Violations...)
 			} else {
 				cov["single_height_batches_pass"] = "skipped: the current tree does not contain the line the rescan-batch overlay rewrites"
 			}
